@@ -26,7 +26,7 @@ impl EndpointHandler<u32> for H {
 }
 
 pub const PATHS: [&str; 6] = ["", "/", "/a", "/a/b", "/a:b", ":"];
-pub const PREFIXES: [&str; 2] = ["", "/p"];
+pub const PREFIXES: [&str; 4] = ["", "/p", "/p/", "/"];
 pub const SERVER_IDS: [&str; 2] = ["router-id", ""];
 
 fn request_uris() -> Vec<Vec<u8>> {
